@@ -17,3 +17,4 @@ open GlueVerif.C09
 #print axioms categories_ok
 #print axioms roi_selection
 #print axioms rect_categorical_rotated_witness
+#print axioms selection_scale_equivariant
